@@ -30,6 +30,9 @@ Proof. vm_compute. reflexivity. Qed.
 (* closeListener.Close: underlying close every time, callback through sync.Once *)
 Lemma ob_close_uses_once : close_uses_once = true.
 Proof. vm_compute. reflexivity. Qed.
+(* ... and nothing lets Close return between the underlying close and the Once *)
+Lemma ob_close_not_early : close_returns_early_on_errclosed = false.
+Proof. vm_compute. reflexivity. Qed.
 Lemma ob_close_calls_underlying : close_calls_underlying = true.
 Proof. vm_compute. reflexivity. Qed.
 
